@@ -131,6 +131,17 @@ def gen_plan(rng) -> dict:
     if not live:
         live = [add_construct()]
     ops.append({"op": "encode", "slot": rng.choice(live)})
+    # epilogue (warm process vs cold process): every recipe of the pool once more, built from fresh
+    # components, in the process as the history left it
+    if rng.random() < 0.7:
+        order = list(range(len(recs)))
+        rng.shuffle(order)
+        for ri in order[:6]:
+            s = next_slot
+            next_slot += 1
+            ops.append({"op": "construct", "slot": s, "recipe": ri, "share": {c: False for c in SHAREABLE},
+                        "epilogue": True})
+            ops.append({"op": "encode", "slot": s, "epilogue": True})
     return {"recipes": recs, "ops": ops, "trace_mode": trace_mode,
             "gen": {"share_p": share_p, "fault_mode": fault_mode, "toggles": {k: v for k, v in t.items()}}}
 
